@@ -95,6 +95,43 @@ def nt_alignment(inp):
     return {'violates': bool(bad), 'detail': bad[:3], 'n_bad_entries': len(bad)}
 
 
+def nt_ordering_many_operators(inp):
+    """3 and 4 operators on a closed system (trivial process tensor), every earlier operator over several steps so that out-of-order
+    combinations occur: an entry is a number iff t_1 <= t_2 <= ... <= t_n, and then equals the directly computed ordered correlation"""
+    import itertools
+    import oqupy
+    from scipy.linalg import expm
+    sx, sy, sz = [oqupy.operators.sigma(c) for c in 'xyz']
+    H = 0.7 * sx + 0.2 * sz
+    sys_ = oqupy.System(H)
+    rho0 = oqupy.operators.spin_dm('y+')
+    dt = 0.2
+    pt, n = _exact_pt(stored_dt=dt)
+    ops_all = [sz, sx, sy, sz + 0.3 * sx]
+    bad = []
+
+    def exact(ops, steps):
+        rho, t = rho0.astype(complex), 0
+        for o, k in zip(ops[:-1], steps[:-1]):
+            u = expm(-1j * H * dt * (k - t))
+            rho = o @ (u @ rho @ u.conj().T)        # every operator acts from the left
+            t = k
+        u = expm(-1j * H * dt * (steps[-1] - t))
+        return np.trace(ops[-1] @ (u @ rho @ u.conj().T))
+    for nops, specs in ((3, [slice(0, 3), [2, 0, 1], slice(1, 4)]), (4, [slice(0, 3), slice(0, 3), [1, 3, 2], slice(3, 6)])):
+        ops = ops_all[:nops]
+        times, corr = oqupy.compute_correlations_nt(sys_, pt, ops, specs, ['left'] * nops, initial_state=rho0, start_time=0.0, progress_type='silent')
+        steps = [np.round(np.array(t) / dt).astype(int) for t in times]
+        for idx in itertools.product(*[range(len(s)) for s in steps]):
+            ks = [int(steps[a][i]) for a, i in enumerate(idx)]
+            got = corr[idx]
+            inside = all(ks[a] <= ks[a + 1] for a in range(nops - 1))
+            ok = ((not np.isnan(got)) and abs(got - exact(ops, ks)) < 1e-8) if inside else np.isnan(got)
+            if not ok:
+                bad.append({'operators': nops, 'steps': ks, 'observed': str(got), 'required': str(exact(ops, ks)) if inside else 'NaN'})
+    return {'violates': bool(bad), 'detail': bad[:4], 'n_bad_entries': len(bad)}
+
+
 def three_operators_same_step(inp):
     """<C(t) B(s) A(s)> with A and B at the SAME step must equal the two-operator correlation
     <C(t) (BA)(s)>  (both operators on the left) resp. <C(t) rho (AB)> ordering on the right"""
@@ -203,4 +240,4 @@ def bath_closed_form(inp):
 
 
 # thorough tier (bounded native sweeps): (function, inputs, obligation of the open finding it reproduces or None)
-THOROUGH = [('nt_alignment', {}, None), ('three_operators_same_step', {}, None), ('nt_start_time', {}, None), ('anti_axes', {}, None), ('bath_closed_form', {}, None)]
+THOROUGH = [('nt_alignment', {}, None), ('three_operators_same_step', {}, None), ('nt_start_time', {}, None), ('anti_axes', {}, None), ('bath_closed_form', {}, None), ('nt_ordering_many_operators', {}, None)]
